@@ -130,7 +130,7 @@ impl Tracer {
         Tracer {
             clients: Vec::new(),
             tid2client: BTreeMap::new(),
-            root: normalize(&root.display().to_string()),
+            root: normalize(&crate::penc::penc(root)),
             events: Vec::new(),
             all_mutations: Vec::new(),
             unknown_stops: BTreeMap::new(),
@@ -155,7 +155,7 @@ impl Tracer {
         let idx = self.clients.len();
         let mut threads = BTreeMap::new();
         threads.insert(pid, Thread { tid: pid, state: TState::Running, in_syscall: false, cur: None, inject_ret: None, post_kill: false, ficlone: false, ev_idx: None });
-        self.clients.push(Client { idx, pid, threads, fds: BTreeMap::new(), cwd: cwd_string(cwd), n_rel: 0, exit: None, out_path: normalize(&out.display().to_string()), cur_op: None, ops_done: 0, killed: false });
+        self.clients.push(Client { idx, pid, threads, fds: BTreeMap::new(), cwd: cwd_string(cwd), n_rel: 0, exit: None, out_path: normalize(&crate::penc::penc(out)), cur_op: None, ops_done: 0, killed: false });
         self.tid2client.insert(pid, idx);
         Ok(idx)
     }
